@@ -156,7 +156,7 @@ impl Drop for TlsObj {
                             ),
                         );
                     }
-                    let tg = crate::world::TG { g: g2, gid: mon().new_gid() };
+                    let tg = c.adopt_guard(g2);
                     let s = c.load(&w.roots[0], &tg);
                     c.sderef(s);
                     c.sderef(s);
@@ -168,7 +168,9 @@ impl Drop for TlsObj {
                 c.reactivate(&mut g);
                 let i = mon().op_begin(c.t, "reactivate_after", [0; 4]);
                 mon().guard_end(c.t, g.gid);
+                mon().cs_restart_begin(c.t);
                 g.g.reactivate_after(|| {});
+                mon().cs_restart_end(c.t);
                 mon().op_end(i, [0; 4]);
                 c.unpin(g);
             }
